@@ -249,6 +249,8 @@ def merge_reports(reports):
 def finish(prop, tier, level, merged, t0, rule, assumptions, trusted_base=None, extra_cov=None):
     """Apply known findings, write replay artefacts + evidence, print verdict lines.
     Returns the process exit code."""
+    if os.environ.get("VERIF_DUMP"):
+        json.dump(merged, open(os.environ["VERIF_DUMP"], "w"), indent=1)
     known = load_known(prop)
     evdir = os.path.join(VERIF, "evidence")
     rpdir = os.path.join(evdir, "replay")
@@ -308,3 +310,52 @@ def finish(prop, tier, level, merged, t0, rule, assumptions, trusted_base=None, 
           % (prop, tier, ev, states, trans, traces, len(classes), merged["exhaustive"], len(violations),
              sum(1 for k in known if k["hit"]), time.time() - t0))
     return 1 if violations else 0
+
+
+# ---------------------------------------------------------------- generated bindings
+
+PKGROOT = "verifharness/gen"
+
+
+def build_emit(scratch):
+    out = os.path.join(scratch.dir, "emit")
+    if not os.path.exists(out):
+        run(["go", "build", "-o", out, "./cmd/emit"], cwd=os.path.join(VERIF, "mc"), timeout=600)
+    return out
+
+
+def build_generator(scratch, gen):
+    out = os.path.join(scratch.dir, "genbin-" + gen)
+    if not os.path.exists(out):
+        mod = make_module(scratch, gen, "genmain")
+        go_build(mod, out, tags="verifgen")
+    return out
+
+
+def generate(scratch, gen, universe, outdir, registry=None, extra_files=None):
+    """Emit the manifest of `universe`, run the generator of the current tree into outdir/gen."""
+    emit = build_emit(scratch)
+    genbin = build_generator(scratch, gen)
+    manifest = os.path.join(outdir, "manifest-%s.json" % universe)
+    cmd = [emit, "-universe", universe, "-gen", gen, "-pkgroot", PKGROOT, "-manifest", manifest]
+    if registry:
+        cmd += ["-registry", registry]
+    run(cmd, timeout=120)
+    target = os.path.join(outdir, "gen")
+    if extra_files:
+        for rel, content in extra_files.items():
+            p = os.path.join(target, rel)
+            os.makedirs(os.path.dirname(p), exist_ok=True)
+            open(p, "w").write(content)
+    args = [genbin, manifest, target] + ([PKGROOT] if gen == "root" else [])
+    p = run(args, cwd=outdir, timeout=600, check=False)
+    if p.returncode != 0:
+        raise Internal("generator failed on universe %s (%s):\n%s" % (universe, gen, p.stdout[-4000:]))
+    # all_imports_test.gr.go is package main with no func main; it is a test file by name only
+    return target
+
+
+def build_with_bindings(scratch, gen, harness, universe, overlay=None):
+    mod = make_module(scratch, gen, harness, name="%s-%s-%s" % (harness, universe, gen))
+    generate(scratch, gen, universe, mod, registry=os.path.join(mod, "zz_registry.go"))
+    return go_build(mod, os.path.join(mod, "h"), overlay=overlay)
